@@ -1,5 +1,7 @@
 import Casm.Proofs.Corner
 import Casm.Proofs.SwitchAsm
+import Casm.Proofs.FrontInv
+import Casm.Proofs.FrontUniq
 /-!
 # Casm.Proofs.SwitchOutcome — `assemble` under the two settings: the same outcome
 
@@ -173,5 +175,76 @@ theorem assemble_switch_outcome (opts : Opts) (fs : SrcFiles) (roots : List (Lis
             · cases buildLoop d.banks ⟨initIter d.banks, fillBanks d.banks [], [], []⟩ (outputItems st d nodes) with
               | error e => rfl
               | ok bst => rfl
+
+/-- **C08 (static switch), end to end, with the facts about the front end's result proved**: the only
+    hypothesis left is `FrontRel` (the two front ends agree up to marks). -/
+theorem assemble_switch_outcome' (opts : Opts) (fs : SrcFiles) (roots : List (List Char))
+    (ho : opts.optStatic = true) (hmax : 2 ≤ opts.maxIter) (hrel : FrontRel opts fs roots) :
+    (assemble opts.staticOff fs roots).map AsmOk.core = (assemble opts fs roots).map AsmOk.core := by
+  unfold assemble
+  unfold FrontRel at hrel
+  cases hf : frontEnd opts fs roots with
+  | error e => rw [hf] at hrel; simp only [Except.map] at hrel; rw [hrel]
+  | ok x =>
+    obtain ⟨st, nodes, d0⟩ := x
+    rw [hf] at hrel
+    simp only [Except.map] at hrel
+    rw [hrel]
+    simp only
+    have hso : st.opts = opts := by
+      unfold frontEnd at hf
+      split at hf
+      · cases hf
+      · split at hf
+        split at hf
+        · cases hf
+        · injection hf with hf; injection hf with h1 _; rw [← h1]
+    have hos : st.opts.optStatic = true := by rw [hso]; exact ho
+    have f := frontEnd_frontOK opts ho fs roots st nodes d0 hf
+    have fsS := frontEnd_frontOKS opts fs roots st nodes d0 hf
+    have u := frontEnd_uniq opts fs roots st nodes d0 hf
+    have hok0 := frontEnd_nodesOK opts fs roots st nodes d0 hf
+    have hwf := frontEnd_noClash opts fs roots st nodes d0 hf
+    obtain ⟨m, hm⟩ : ∃ m, st.opts.maxIter = m + 2 := ⟨st.opts.maxIter - 2, by rw [hso]; omega⟩
+    unfold resolveIteratively
+    have hmo : (st.withStatic false).opts.maxIter = st.opts.maxIter := rfl
+    rw [hmo, hm]
+    have key := resolveIterativelyN_switch_outcome (markedByBoth st d0) st nodes d0 f fsS hos hwf u hok0 m
+    have hd : (st.withStatic false).decls = st.decls := rfl
+    have hu : checkUnusedDefines opts.staticOff st.decls = checkUnusedDefines opts st.decls := rfl
+    cases hon : resolveIterativelyN st nodes (m + 2) d0 with
+    | error e =>
+      rw [hon] at key
+      cases hoff : resolveIterativelyN (st.withStatic false) nodes (m + 2) (d0.unfS (markedByBoth st d0)) with
+      | error e' =>
+        rw [hoff] at key
+        simp only [Except.map] at key ⊢
+        injection key with key
+        rw [key]
+      | ok y => rw [hoff] at key; simp [Except.map] at key
+    | ok x =>
+      obtain ⟨iters, d, rep⟩ := x
+      rw [hon] at key
+      cases hoff : resolveIterativelyN (st.withStatic false) nodes (m + 2) (d0.unfS (markedByBoth st d0)) with
+      | error e' => rw [hoff] at key; simp [Except.map] at key
+      | ok y =>
+        obtain ⟨iters', d', rep'⟩ := y
+        rw [hoff] at key
+        simp only [Except.map, Except.ok.injEq, dropK, usFin] at key
+        obtain ⟨h1, h2⟩ := Prod.mk.inj key
+        subst h1; subst h2
+        dsimp only
+        have hb : (d.unfS (markedByBoth st d0)).banks = d.banks := rfl
+        rw [hb, hd, hu, outputItems_us, symbolListing_us]
+        split
+        · rfl
+        · split
+          · rfl
+          · split
+            · rfl
+            · cases buildLoop d.banks ⟨initIter d.banks, fillBanks d.banks [], [], []⟩ (outputItems st d nodes) with
+              | error e => rfl
+              | ok bst => rfl
+
 
 end Casm
